@@ -73,7 +73,7 @@ const (
 	histKeep        = 40
 	maxForks        = 4
 	quickGenerated  = 1600
-	thoroughGenCase = 60000
+	thoroughGenCase = 24000
 )
 
 var sizes = []int{64, 128, 256, 512, 1024, 2048, 4096, 8192, 16384, 32768}
@@ -1471,7 +1471,7 @@ func runGenerated(c *vf.Case) {
 					st.snd.p.jump = max(st.snd.p.jump, 0.01)
 				}
 			}
-			if g.limit > 0 && g.size > 4096 && !(thorough && r.Chance(0.03)) {
+			if g.limit > 0 && g.size > 4096 && !(thorough && r.Chance(0.01)) {
 				// The library prunes its per-number counters with a linear search per counter
 				// (quadratic in the missing set, seconds per tick for 30000 numbers): keep the
 				// missing set of limited-mode cases with large windows in the low thousands.
